@@ -20,7 +20,12 @@ def run(m):
     d = tempfile.mkdtemp(prefix='wc-mut.', dir='/tmp')
     try:
         subprocess.run(['rsync', '-a', '--exclude', '.git', '/repo/', d + '/'], check=True)
-        for e in m['edits']:
+        if m.get('revert_patch'):
+            # the mutant is the tree with one repair taken out again
+            pr = subprocess.run(['patch', '-R', '-p1', '-s', '--no-backup-if-mismatch', '-d', d, '-i', os.path.join('/verif/mutants', m['revert_patch'])], capture_output=True, text=True)
+            if pr.returncode != 0:
+                return (m, 'SKIP', 'repair patch no longer reverts cleanly: ' + (pr.stdout + pr.stderr)[-200:])
+        for e in m.get('edits', []):
             p = os.path.join(d, e['file'])
             s = open(p).read()
             if e.get('all'):
